@@ -190,7 +190,7 @@ func (w *World) Step(out *trace.W, c *chain.Chain, preM trace.M, n int, call Cal
 	b := c
 	// gas limit: what the methods declare + room for the transaction and the forwarding contract (a failing call
 	// burns the whole limit)
-	gas := uint64(150_000)
+	gas := uint64(160_000)
 	for _, o := range call.Ops {
 		gas += requiredGas[o.M]
 	}
@@ -292,7 +292,7 @@ type Gen struct {
 func (g *Gen) pick(xs ...string) string { return xs[g.R.Intn(len(xs))] }
 
 // callers the random histories use (operators a1, a2 act as ordinary delegators too; a0 is the relayer)
-var callers = []string{"a3", "a4", "a5", "a3", "a4", "a1", "cC", "cD", "cO", "cW", "cT", "cC", "cD"}
+var callers = []string{"a3", "a4", "a5", "a3", "a4", "a1", "cC", "cD", "cO", "cW", "cT", "cC", "cD", "cN"}
 
 func (g *Gen) val() string {
 	if g.R.Intn(25) == 0 {
